@@ -97,7 +97,10 @@ func runC08(c *Ctx) {
 		// value derives from the rollout's name
 		return SliceHas(mu.Value, func(t *Term) bool { return t.Op == "call" && strings.HasSuffix(t.Name, "json.Marshal") }) || SliceHas(mu.Value, MField("Name"))
 	}
+	rawMarker := isMarker
+	isMarker = MustDo(rawMarker)
 	for _, h := range handlers {
+		h.knob = MustDo(h.knob)
 		fn := p.Func(h.fn)
 		if fn == nil {
 			c.Unresolved("R8.1", h.fn)
